@@ -48,6 +48,10 @@ type TimedOpts struct {
 	// TxLag: the initial transactions have reached only a drawn part of the pools; a node that is asked for one it
 	// lacks is handed it (OnTransaction) within one latency of the request - transaction gossip in a fault-free network
 	TxLag bool
+	// ForeignTxPct: chance that, right before a requested transaction is handed over, the application passes the node
+	// another transaction it has just received - one the proposal does not name (applications like neo-go pass every
+	// incoming transaction to OnTransaction); it joins the node's pool like any other (seeded change C08n)
+	ForeignTxPct int
 	// TxJitter: a new transaction reaches the pools one by one, each within one latency (gossip), instead of at one instant;
 	// a node that has asked its application for it is handed it (OnTransaction) when it arrives.
 	TxJitter bool
@@ -538,9 +542,19 @@ func (t *Timed) step() bool {
 					delete(n.Want, h)
 					n.AddTx(s.Tx)
 					w.Stat("supply_tx")
-					w.act("supplyTx(%d) %x", n.ID, uint64(s.Tx))
-					n.Transaction(s.Tx)
-					t.afterCall(n)
+					if t.O.ForeignTxPct > 0 && t.r("foreigntx", 100) < t.O.ForeignTxPct {
+						ftx := w.NewTx(false)
+						n.AddTx(ftx)
+						w.Stat("foreign_tx_passed_before_requested_one")
+						w.act("foreignTx(%d) %x", n.ID, uint64(ftx))
+						n.Transaction(ftx)
+						t.afterCall(n)
+					}
+					if !n.Crashed {
+						w.act("supplyTx(%d) %x", n.ID, uint64(s.Tx))
+						n.Transaction(s.Tx)
+						t.afterCall(n)
+					}
 				}
 			}
 		case "tx":
